@@ -51,7 +51,15 @@ def ccase(I, c):
                                        cpair(cinput(I, st), clist(st.get("out") or [], lambda m: cmsg(I, m), "smsg"))),
                       "(nat * (input * list smsg))%type")
         return "(MMulti %s %s %s %s)" % (cnat(c["n"]), cbool(bool(c.get("fail"))), cnat(nsessions(c)), steps)
-    groups = join_groups(c.get("steps") or [])   # (the driver joins steps in single-session cases only)
+    steps_all = c.get("steps") or []
+    blk = int(c.get("block") or 0)
+    if 0 < blk < len(steps_all):
+        # the block: every child's messages in their order, child after child (the merged replies depend on the
+        # per-child order only), one joint observation
+        groups = join_groups(steps_all[:blk])
+        groups.append(sorted(steps_all[blk:], key=lambda st: st.get("i", 0)))
+    else:
+        groups = join_groups(steps_all)   # (the driver joins steps in single-session cases only)
     if any(len(g) > 1 for g in groups):
         # runs of child messages emitted with no sentinel in between: groups of inputs with one joint observation
         gs = clist(groups,
@@ -94,6 +102,8 @@ def strip(c):
 def shrink_steps(c):
     """smaller inputs: drop a block of steps, drop one step, drop a filter, blank a filter field"""
     c = strip(c)
+    if c.get("block"):      # (only the whole case is replayed: dropping steps would move the block)
+        return
     if c.get("nest"):       # the flat handler first; fewer children only for the flat handler
         c2 = dict(c)
         c2.pop("nest")
